@@ -136,7 +136,7 @@ def rtarget(rng):
     else:
         t = b"*"
     if rng.random() < 0.4:
-        q = b"&".join(rtoken(rng, rng.randrange(1, 5)) + b"=" + bytes(rng.choice(b"ab+%2041&=;x") for _ in range(rng.randrange(0, 8))) for _ in range(rng.randrange(1, 4)))
+        q = b"&".join(rtoken(rng, rng.randrange(1, 5)) + b"=" + (bytes(rng.choice(b"ab+%2041&=;x") for _ in range(rng.randrange(0, 8))) if rng.random() < 0.6 else b"".join(rng.choice([b"a", b"%26", b"%3D", b"%3d", b"%2b", b"+", b"%25", b"R", b"D"]) for _ in range(rng.randrange(1, 5)))) for _ in range(rng.randrange(1, 4)))
         t += b"?" + q
     if rng.random() < 0.2:
         t += b"#" + bytes(rng.choice(b"frag?#/x") for _ in range(rng.randrange(0, 6)))
@@ -360,6 +360,56 @@ def gen(rng, tier):
         st["tcp_ops"] += 1
         st["tcp_connections"] += len(tcpconns[i:i + 4])
 
+    # --- every percent escape in both letter cases (path and bare decode), judged by the urllib reference
+    c = []
+    for v in range(256):
+        for fmt in ("%%%02x", "%%%02X"):
+            e = (fmt % v).encode()
+            c.append("tg " + hexs(b"/p" + e + b"q"))
+            c.append("dec " + hexs(b"a" + e + e + b"z"))
+            st["targets_random"] += 1
+            st["dec"] += 1
+    for t in [b"/%5b%4a%0d%7e%6f", b"/%5B%4A%0D%7E%6F", b"/%e2%82%ac", b"/%c3%a9t%c3%a9", b"/a%2fb%2Fc", b"/%41%61%5a%7a"]:
+        c.append("tg " + hexs(t))
+        c.append("req " + hexs(b"GET " + t + b" HTTP/1.1\r\nHost: h\r\n\r\n"))
+    cases.append(c[:520])
+    cases.append(c[520:])
+
+    # --- query strings with escaped separators inside keys and values (the dictionary handed to the handler)
+    c = []
+    for q in [b"tag=R%26D", b"a%3Db=c%3dd", b"x=%2b+y&z=%2B", b"k%26k=v%3Dv&plain=1", b"a=1%262&b=%3D%3D", b"q=%25&r=%2526", b"%61=%62&c=d%26e%3Df",
+              b"tag=R%26D&tag2=R&D=x", b"sp=a+b%20c", b"e=%3d%26%3D%26", b"u=%e2%82%ac&v=%C3%A9"]:
+        for m in (b"GET", b"POST"):
+            r1 = m + b" /find?" + q + b" HTTP/1.1\r\nHost: h\r\n\r\n"
+            c.append("req " + hexs(r1))
+            c.append("srv " + hexs(r1 + b"GET /after?" + q + b"#frag HTTP/1.1\r\n\r\n"))
+            st["req_wellformed"] += 1
+            st["srv_streams"] += 1
+    cases.append(c)
+
+    # --- Content-Length that is not a length, and Content-Length together with chunked, each followed by a
+    #     pipelined request that must not become part of a body nor be dispatched out of a body
+    c = []
+    nxt = b"GET /next HTTP/1.1\r\nHost: h\r\n\r\n"
+    for cl in [b"4294967301", b"4294967296", b"2147483648", b"2147483647", b"99999999999", b"00000000005", b"0000000005", b"-5", b"-0", b"+5", b"5x", b"5 5",
+               b"0x5", b"5,5", b"", b"5\x005", b"\xb5", b"05", b"00"]:
+        c.append("srv " + hexs(b"POST /a HTTP/1.1\r\nContent-Length: " + cl + b"\r\n\r\nhello" + nxt))
+        c.append("req " + hexs(b"POST /a HTTP/1.1\r\nContent-Length: " + cl + b"\r\n\r\nhello" + nxt))
+        st["srv_streams"] += 1
+        st["req_mutated"] += 1
+    hidden = b"1c\r\nGET /smuggled HTTP/1.1\r\n\r\n\r\n\r\n"
+    for cl in [b"3", b"0", b"5", b"100", b"-1", b"4294967299"]:
+        for order in (0, 1):
+            hs = [b"Content-Length: " + cl + b"\r\n", b"Transfer-Encoding: chunked\r\n"]
+            if order:
+                hs.reverse()
+            x = b"POST /a HTTP/1.1\r\n" + b"".join(hs) + b"\r\n3\r\nabc\r\n" + hidden + b"0\r\n\r\n" + nxt
+            c.append("srv " + hexs(x))
+            c.append("req " + hexs(x))
+            st["srv_streams"] += 1
+            st["req_mutated"] += 1
+    cases.append(c)
+
     # --- chunked bodies with odd chunk-size lines
     c = []
     for sz in [b"-1", b"-5", b"ffffffff", b"fffffffb", b"80000000", b"7fffffff", b"100000000", b"100000005", b"0x5", b"0X5", b" 5", b"+5",
@@ -485,7 +535,10 @@ def gen(rng, tier):
     fpaths = [b"/", b"/a.txt", b"/sub/b.txt", b"/sub", b"/sub/", b"/nope", b"/e.bin", b"/../secret.txt", b"/%2e%2e/secret.txt", b"/..%2fsecret.txt",
               b"/sub/../../secret.txt", b"/%2e%2e%2fsecret.txt", b"/....//secret.txt", b"/..../secret.txt", b"/.%2e/secret.txt", b"/%00/../secret.txt",
               b"/sub/%2e%2e/%2e%2e/secret.txt", b"/..././secret.txt", b"/../rootx/s.txt", b"/..rootx/s.txt", b"/.%00./secret.txt", b"/%252e%252e/secret.txt",
-              b"/..\\secret.txt", b"/a.txt?x=../secret.txt", b"/a.txt#../secret.txt", b"//secret.txt", b"/./a.txt"]
+              b"/..\\secret.txt", b"/a.txt?x=../secret.txt", b"/a.txt#../secret.txt", b"//secret.txt", b"/./a.txt",
+              # no leading '/': root + path must not become a sibling of the root (fix 1bf672e)
+              b"x/s.txt", b"..x/s.txt", b"%78/s.txt", b"x/", b"x", b"..x", b"x/../x/s.txt", b"%2e%2ex/s.txt", b"x%2fs.txt", b"a.txt", b"sub/b.txt",
+              b"..", b".", b"...x/s.txt", b"x//s.txt"]
     ranges = [b"", b"Range: bytes=5\r\n", b"Range: bytes=0-4\r\n", b"Range: bytes=5-\r\n", b"Range: bytes=-5\r\n", b"Range: bytes=9-3\r\n", b"Range: bytes=0-999\r\n",
               b"Range: bytes=3-3\r\n", b"Range: bytes=-\r\n", b"Range: bytes=\r\n", b"Range: bytes=a-b\r\n", b"Range: bytes=1-2,4-5\r\n", b"Range: lines=1-2\r\n",
               b"Range: bytes=99999999999-\r\n", b"Range: bytes=--1\r\n", b"Range:bytes=1-2\r\n", b"If-Modified-Since: Sat, 26 Sep 2026 10:00:00 GMT\r\n",
@@ -505,6 +558,29 @@ def gen(rng, tier):
             c = []
     if c:
         cases.append(c)
+    # --- static file mapping: target -> file under the root (model: localRel + fixture tree), every short token string
+    import itertools as _it
+    ftoks = [b"/", b".", b"..", b"a.txt", b"sub", b"index.html", b"b.txt", b"e.bin", b"x", b"s.txt", b"%2f", b"%2e", b"rootx", b"secret.txt"]
+    c = []
+    st["fmap"] = 0
+    for L in range(1, (3 if quick else 4) + 1):
+        for t in _it.product(ftoks, repeat=L):
+            c.append("fmap " + hexs(b"".join(t)))
+            st["fmap"] += 1
+            if len(c) == 400:
+                cases.append(c)
+                c = []
+    for i in range(2000 if quick else 30000):
+        t = b"".join(rng.choice(ftoks) for _ in range(rng.randrange(4, 9)))
+        c.append("fmap " + hexs(t))
+        st["fmap"] += 1
+        if len(c) == 400:
+            cases.append(c)
+            c = []
+    for t in fpaths:
+        c.append("fmap " + hexs(t))
+        st["fmap"] += 1
+    cases.append(c)
     GEN_STATS.clear()
     GEN_STATS.update(st)
     return cases
@@ -819,17 +895,15 @@ def _frame(s):
     cl = hd.get(b"Content-Length")
     chunked = hd.get(b"Transfer-Encoding") == b"chunked"
     body = b""
-    if cl is not None:
-        if cl == b"0":
-            pass
-        elif re.fullmatch(rb"[0-9]{1,9}", cl) and 0 < int(cl) < 2 ** 31 and not chunked:
-            n = int(cl)
-            if len(s) - pos < n:
-                return "incomplete"  # fewer body bytes than announced
-            body = s[pos:pos + n]
-            pos += n
-        else:
-            return None
+    if cl is not None and not (re.fullmatch(rb"[0-9]{1,10}", cl) and int(cl) < 2 ** 31):
+        # a sign, other characters, or more than fits a length: the framing is unknown, nothing may be dispatched
+        return "incomplete"
+    if cl is not None and not chunked:          # Transfer-Encoding overrides Content-Length (RFC 7230 3.3.3)
+        n = int(cl)
+        if len(s) - pos < n:
+            return "incomplete"  # fewer body bytes than announced
+        body = s[pos:pos + n]
+        pos += n
     elif chunked:
         while True:
             j = s.find(b"\n", pos)
@@ -884,6 +958,9 @@ def _frame_mismatch(fr, rec):
         raw, qs = (before[:q], before[q + 1:]) if q > 0 else (before, b"")
         if f.get("q") != adler_rep(qs):
             return "query string"
+        qd = _ref_query(qs)
+        if qd is not None and f.get("qd") != qd:
+            return "query parameters"
         if _VALID_ESC.match(raw):
             p = _ref_path(raw)
             if p is not None and f.get("p") != adler_rep(p):
